@@ -495,7 +495,7 @@ def case_tts(run, rng, vd):
                                     "test_rows": np.sort(ds.rows(test[0])) if ds.rows(test[0]) is not None else None})
 
 
-def case_splinecv(run, rng, vd, client=None):
+def case_splinecv(run, rng, vd, client=None, index=None):
     import dask
 
     ds, coords, data, weights, info = make_dataset(rng, run, ncomp=1, nmax=60 if run.tier == "quick" else 80)
@@ -512,6 +512,13 @@ def case_splinecv(run, rng, vd, client=None):
     mindists = None
     if rng.random() < 0.4:
         mindists = [float(ext * 10 ** rng.uniform(-3, -1)), float(ext * 10 ** rng.uniform(-6, -3))][: int(rng.integers(1, 3))]
+    if index is not None and index % 4 == 1:
+        # every fourth case is a genuinely two-dimensional grid (the order of product(mindists, dampings) is only visible there)
+        mindists = [float(ext * 10 ** rng.uniform(-3, -1)), float(ext * 10 ** rng.uniform(-6, -3))]
+        if len(dampings) < 2:
+            dampings = [1e-3, 1e-1] if dampings[0] is None or dampings[0] > 1e-2 else [dampings[0], 0.3]
+    if mindists is not None and len(mindists) > 1 and len(dampings) > 1:
+        run.count("class:splinecv:two_dimensional_grid")
     force_coords = None
     if rng.random() < 0.2:
         k = int(rng.integers(12, 25))
